@@ -115,6 +115,79 @@ def permission_harness(I: Interp) -> None:
                 for line, kind, callee, under in sc.sites:
                     if kind == "requires-call" or kind == "transport-io":
                         pass
+    # P1 (inferred): a method with an unlocked transport access or an unlocked call of a
+    # requiring function itself requires the permission, and so do its callers - every call
+    # site of such a method is an obligation too (the declared REQUIRES set stays as it is).
+    scans: dict[str, tuple[str, Scan, ast.AST]] = {}
+    for cls in classes():
+        for name, fn in vars(cls).items():
+            raw = fn.__func__ if isinstance(fn, (classmethod, staticmethod)) else fn
+            if inspect.isfunction(raw):
+                tree = ast.parse(textwrap.dedent(inspect.getsource(raw)))
+                sc = Scan()
+                sc.visit(tree)
+                scans[name] = (cls.__name__, sc, tree)
+
+    def self_calls(tree: ast.AST) -> list[tuple[str, bool, int]]:
+        out: list[tuple[str, bool, int]] = []
+
+        class V2(ast.NodeVisitor):
+            depth = 0
+
+            def visit_AsyncWith(self, n: ast.AsyncWith) -> None:
+                locked = any(is_self_attr(it.context_expr, "mutex") for it in n.items)
+                self.depth += locked
+                for st in n.body:
+                    self.visit(st)
+                self.depth -= locked
+
+            def visit_Call(self, n: ast.Call) -> None:
+                f = n.func
+                if isinstance(f, ast.Attribute) and isinstance(f.value, ast.Name) and \
+                        f.value.id == "self":
+                    out.append((f.attr, self.depth > 0, n.lineno))
+                self.generic_visit(n)
+        V2().visit(tree)
+        return out
+    inferred: set[str] = set()
+    changed = True
+    while changed:
+        changed = False
+        for name, (cn, sc, tree) in scans.items():
+            if name in REQUIRES or name in inferred:
+                continue
+            unlocked_io = any(k in ("transport-io", "requires-call") and not under
+                              for _, k, _, under in sc.sites)
+            unlocked_call = any(c in inferred and not under for c, under, _ in self_calls(tree))
+            if unlocked_io or unlocked_call:
+                inferred.add(name)
+                changed = True
+    for name, (cn, sc, tree) in scans.items():
+        for callee, under, line in self_calls(tree):
+            if callee in inferred:
+                n_sites += 1
+                I.prove(f"P1-{cn}.{name}:call-of-unlocked-transport-user:{callee}(holds-mutex)",
+                        z3.BoolVal(under or name in REQUIRES), f"line +{line}")
+    # P4: a function that requires the permission keeps it throughout: neither it nor anything
+    # it calls on self releases the mutex
+    def releases(tree: ast.AST) -> bool:
+        return any(isinstance(n, ast.Call) and isinstance(n.func, ast.Attribute)
+                   and n.func.attr == "release" and is_self_attr(n.func.value, "mutex")
+                   for n in ast.walk(tree))
+    for r in sorted(REQUIRES):
+        if r not in scans:
+            continue
+        seen, todo, bad = {r}, [r], []
+        while todo:
+            g = todo.pop()
+            if releases(scans[g][2]):
+                bad.append(g)
+            for callee, _, _ in self_calls(scans[g][2]):
+                if callee in scans and callee not in seen:
+                    seen.add(callee)
+                    todo.append(callee)
+        I.prove(f"P4-{r}-keeps-the-mutex-throughout(no-release-in-anything-it-calls)",
+                z3.BoolVal(not bad), "released in " + ", ".join(bad))
     I.prove("P1-call-sites-found", z3.BoolVal(n_sites >= 5), f"{n_sites} sites")
     # the requires-set is closed: every REQUIRES name exists
     from gallia.services.uds.core.client import UDSClient
@@ -196,6 +269,8 @@ def native_replay(unit: str, obligation: str, model: dict) -> tuple[bool, str]:
     logging.disable(logging.CRITICAL)
     from gallia.services.uds.core.client import UDSClient
     from gallia.transports.base import BaseTransport
+    if "_tester_present:transport-io" not in obligation:
+        return False, "no native scenario for this call site (the obligation is syntactic)"
     log: list[str] = []
 
     class T(BaseTransport, scheme="c05"):
